@@ -24,7 +24,7 @@ use crate::data_type::{DataType, Int96};
 use crate::errors::Result;
 use crate::schema::types::ColumnDescPtr;
 use arrow_array::{
-    Array, ArrayRef, BooleanArray, Date64Array, Decimal64Array, Decimal128Array, Decimal256Array,
+    Array, ArrayRef, BooleanArray, Date64Array, Decimal64Array, DictionaryArray, Decimal128Array, Decimal256Array,
     Float32Array, Float64Array, Int8Array, Int16Array, Int32Array, Int64Array, PrimitiveArray,
     UInt8Array, UInt16Array, builder::PrimitiveDictionaryBuilder, cast::AsArray, downcast_integer,
     types::*,
@@ -33,7 +33,7 @@ use arrow_array::{
     TimestampMicrosecondArray, TimestampMillisecondArray, TimestampNanosecondArray,
     TimestampSecondArray, UInt32Array, UInt64Array,
 };
-use arrow_buffer::{BooleanBuffer, Buffer, NullBuffer, ScalarBuffer, i256};
+use arrow_buffer::{ArrowNativeType, BooleanBuffer, Buffer, NullBuffer, ScalarBuffer, i256};
 use arrow_schema::{DataType as ArrowType, TimeUnit};
 use std::any::Any;
 use std::sync::Arc;
@@ -427,6 +427,7 @@ macro_rules! pack_dictionary_helper {
             ArrowType::Int64 => pack_dictionary_impl::<$t, Int64Type>($values.as_primitive()),
             ArrowType::Float32 => pack_dictionary_impl::<$t, Float32Type>($values.as_primitive()),
             ArrowType::Float64 => pack_dictionary_impl::<$t, Float64Type>($values.as_primitive()),
+            ArrowType::Boolean => pack_boolean_dictionary::<$t>($values.as_boolean()),
             _ => unreachable!("Invalid physical type"),
         }
     };
@@ -445,6 +446,24 @@ fn pack_dictionary_impl<K: ArrowDictionaryKeyType, V: ArrowPrimitiveType>(
     let mut builder = PrimitiveDictionaryBuilder::<K, V>::with_capacity(1024, values.len());
     builder.extend(values);
     Ok(Arc::new(builder.finish()))
+}
+
+/// Packs a [`BooleanArray`] into a dictionary with the values `[false, true]`
+///
+/// `BOOLEAN` columns are the only physical type decoded by [`PrimitiveArrayReader`] that is
+/// not an arrow primitive, and so cannot go through [`PrimitiveDictionaryBuilder`]
+fn pack_boolean_dictionary<K: ArrowDictionaryKeyType>(values: &BooleanArray) -> Result<ArrayRef> {
+    let keys: ScalarBuffer<K::Native> = values
+        .values()
+        .iter()
+        .map(|v| K::Native::usize_as(v as usize))
+        .collect();
+    let keys = PrimitiveArray::<K>::new(keys, values.nulls().cloned());
+    let dictionary = BooleanArray::from(vec![false, true]);
+    Ok(Arc::new(DictionaryArray::<K>::try_new(
+        keys,
+        Arc::new(dictionary),
+    )?))
 }
 
 #[cfg(test)]
